@@ -23,9 +23,9 @@ ToSet(s) == {s[k] : k \in DOMAIN s}
 Strict(e) == (ToSet(e.obs) \cap AllObs) \ {"peer:ipv6"}
 
 Load(e) == /\ started' = e.started /\ proxy' = e.proxy /\ kind' = e.kind /\ conf' = e.conf
-           /\ due' = TRUE /\ wanted' = FALSE /\ out' = ToSet(e.obs) \cap AllObs /\ last' = [a |-> "Load"]
+           /\ due' = TRUE /\ wanted' = FALSE /\ peer' = e.peer /\ out' = ToSet(e.obs) \cap AllObs /\ last' = [a |-> "Load"]
 
-Reset(e) == /\ started' = FALSE /\ proxy' = e.proxy /\ kind' = e.kind /\ conf' = e.conf /\ due' = TRUE /\ wanted' = FALSE
+Reset(e) == /\ started' = FALSE /\ proxy' = e.proxy /\ kind' = e.kind /\ conf' = e.conf /\ due' = TRUE /\ wanted' = FALSE /\ peer' = FALSE
             /\ out' = {} /\ last' = [a |-> "Reset"]
 
 Act(e) ==
@@ -38,12 +38,14 @@ Act(e) ==
     [] e.l.a = "Want"       -> Want
     [] e.l.a = "Incoming"   -> Incoming
     [] e.l.a = "Outgoing"   -> Outgoing
+    [] e.l.a = "PeerJoin"   -> PeerJoin
+    [] e.l.a = "PeerLeave"  -> PeerLeave
     [] OTHER -> FALSE
 
 Explained == LET e == Trace[l] IN Act(e) /\ (e.l.a = "reset" \/ (out' = Strict(e) /\ conf' = e.conf))
 
 TInit == /\ l = 1 /\ started = FALSE /\ proxy = FALSE /\ kind = "http" /\ conf = [trk |-> FALSE, ws |-> FALSE, dht |-> "none"]
-         /\ due = TRUE /\ wanted = FALSE /\ out = {} /\ last = [a |-> "Init"]
+         /\ due = TRUE /\ wanted = FALSE /\ peer = FALSE /\ out = {} /\ last = [a |-> "Init"]
 
 TraceNext ==
   /\ l <= Len(Trace)
